@@ -21,6 +21,10 @@ CLAIMS = {
             "note": "trusted: Fourier-Motzkin in lcsa/lin.py; lemma on one correctly-rounded division vs a decimal literal (DESIGN.md C08)", "technique": "static analysis: path enumeration + exact polyhedral feasibility (Fourier-Motzkin) on the decision table"},
     "C09": {"text": "decides the titration term of each residue class and the pKa table, monotone non-increase of NCPR(pH), |NCPR|<=FCR<=titratable/N, FER adds proline, the pH guard on the four entry points, and for the pI loop: return only at |charge|<=0.02 at the returned pH, 7.0 first, bounded by two coupled counters; does NOT decide that the search returns rather than raises",
             "note": "10**x positive and increasing; convergence of the bisection in floats is outside the technique", "technique": T_NF + "; one symbolic loop iteration with the charge as an uninterpreted function"},
+    "C10": {"text": "decides, for every N and every window size of either parity: window guard on every profile, N-w+1 windows, floor/ceil pads, positions 1..N, values[i] = statistic of residues [i,i+w), the statistic's formula (= whole-sequence parameter at w=N; sigma profile = delta's blob sigma), composition rows in caller order, API wrappers",
+            "note": "float rounding not analysed; window size assumed a positive integer", "technique": T_NF + "; parity case split w=2k / w=2k+1"},
+    "C12": {"category": "proof", "text": "exhaustive: 12 sizes x 20 residues map = documented groups, group count, representative in group, alphabet = representatives, one output letter per input letter on every path (length, homomorphism), idempotence, every other size rejected, user alphabet validated for every (key, value-class) pair",
+            "note": "trusted: per-letter constant folding of the loop body in lcsa/sym.py; spec/alphabets.json transcribed from webpage.MD", "technique": "static analysis: finite-alphabet partition analysis (constant propagation of the per-letter loop body over the 20 letters and all sizes)"},
 }
 
 PENDING = "check under construction in this session (design in DESIGN.md section 4); not claimed until it runs clean"
